@@ -187,7 +187,7 @@ def r19b(model, ctx):
     ok = "if (name, number) not in self.resources" in unparse(fl) and "raise ResourceError" in unparse(fl)
     ctx.check(ok, R, "lookup", "unknown resources raise ResourceError", "lookup() must raise ResourceError for unknown resources",
               f"{RES}:{fl.lineno}")
-    fr = model.func(f"{RES}::ResourceManager.request.resolve")
+    fr = model.func_expanded(f"{RES}::ResourceManager.request.resolve", depth=3, exclude=("add_clock_constraint", "merge_options", "resolve"))
     loops = [s for s in ast.walk(fr) if isinstance(s, ast.For) and unparse(s.iter) == "phys_names"]
     ok = len(loops) == 1
     if ok:
@@ -207,20 +207,36 @@ def r19b(model, ctx):
 def r19c(model, ctx):
     R = "R-19c"
     fm = model.func(f"{DSLB}::Pins.map_names")
-    loops = [s for s in fm.body if isinstance(s, ast.For)]
-    ok = len(loops) == 1 and unparse(loops[0].iter) == "self.names"
-    if ok:
-        b = loops[0].body
-        ok = len(b) == 2 and isinstance(b[0], ast.While) and pmatch('":" in name', b[0].test) is not None and \
-            unparse(b[0].body[-1]) == "name = mapping[name]" and unparse(b[1]) == "mapped_names.append(name)" and \
-            any(isinstance(s, ast.If) and unparse(s.test) == "name not in mapping" and isinstance(s.body[0], ast.Raise) for s in b[0].body)
-    ctx.check(ok, R, "Pins.map_names", "names in declared order; connector references followed until a platform pin (chained)",
+    # (1) a name is resolved by following connector references while it still contains ':' (chained connectors), raising for
+    #     unknown connector pins — in the body or in a local helper
+    whiles = [w for w in ast.walk(fm) if isinstance(w, (ast.While, ast.If)) and pmatch('":" in name', w.test) is not None]
+    okw = len(whiles) == 1 and isinstance(whiles[0], ast.While) and unparse(whiles[0].body[-1]) == "name = mapping[name]" and \
+        any(isinstance(x, ast.If) and unparse(x.test) == "name not in mapping" and isinstance(x.body[0], ast.Raise) for x in whiles[0].body)
+    # (2) every declared name, in declared order: an appending loop over self.names, or a comprehension over self.names
+    order = None
+    for lp in fm.body:
+        if isinstance(lp, ast.For) and unparse(lp.iter) == "self.names" and unparse(lp.target) == "name" and \
+                any(w is x for w in whiles for x in ast.walk(lp)):
+            app = [x for x in lp.body if isinstance(x, ast.Expr) and pmatch("_V_L.append(name)", x.value) is not None]
+            if len(app) == 1 and lp.body[-1] is app[0]:
+                lst = unparse(pmatch("_V_L.append(name)", app[0].value)["_V_L"])
+                order = isinstance(fm.body[-1], ast.Return) and unparse(fm.body[-1].value) == lst
+    if order is None:
+        helpers = {h.name: h for h in fm.body if isinstance(h, ast.FunctionDef) and any(w is x for w in whiles for x in ast.walk(h))}
+        ret = fm.body[-1]
+        if isinstance(ret, ast.Return) and isinstance(ret.value, ast.ListComp) and len(ret.value.generators) == 1 and \
+                not ret.value.generators[0].ifs and unparse(ret.value.generators[0].iter) == "self.names" and \
+                isinstance(ret.value.elt, ast.Call) and dotted(ret.value.elt.func) in helpers and \
+                [unparse(a_) for a_ in ret.value.elt.args] == [unparse(ret.value.generators[0].target)]:
+            h = helpers[dotted(ret.value.elt.func)]
+            order = isinstance(h.body[-1], ast.Return) and unparse(h.body[-1].value) == h.args.args[0].arg == "name"
+    need(order is not None, "Pins.map_names: neither the appending loop nor the comprehension over self.names was recognised")
+    ctx.check(okw and order, R, "Pins.map_names", "names in declared order; connector references followed until a platform pin (chained)",
               "map_names must keep the declared order and resolve connector-relative names with `while ':' in name` (chained "
               "connectors), raising for unknown connector pins", f"{DSLB}:{fm.lineno}")
-    ok = isinstance(fm.body[-1], ast.Return) and unparse(fm.body[-1].value) == "mapped_names" and \
-        not any(isinstance(n, ast.Call) and dotted(n.func) in ("sorted", "set", "reversed") for n in ast.walk(fm))
+    ok = not any(isinstance(n, ast.Call) and dotted(n.func) in ("sorted", "set", "reversed", "frozenset") for n in ast.walk(fm))
     ctx.check(ok, R, "Pins.map_names:order", "no sort/set/reverse", "map_names must not reorder the pins", f"{DSLB}:{fm.lineno}")
-    fr = model.func(f"{RES}::ResourceManager.request.resolve")
+    fr = model.func_expanded(f"{RES}::ResourceManager.request.resolve", depth=3, exclude=("add_clock_constraint", "merge_options", "resolve"))
     t = unparse(fr)
     # IOPort width and metadata order
     checks = [
@@ -240,7 +256,15 @@ def r19c(model, ctx):
     ctx.check(ok, R, "resolve:invert/direction", "ports carry the declared inversion and direction",
               "the returned port must carry invert=phys.invert and the declared direction", f"{RES}:{fr.lineno}")
     ifs = [s for s in ast.walk(fr) if isinstance(s, ast.If) and pmatch('phys.dir == "oe"', s.test) is not None]
-    ok = len(ifs) == 1 and unparse(ifs[0].body[0]) == "direction = 'o'" and unparse(ifs[0].orelse[0]) == "direction = phys.dir"
+    exps = [s for s in ast.walk(fr) if isinstance(s, ast.Assign) and unparse(s.targets[0]) == "direction" and isinstance(s.value, ast.IfExp)]
+    if ifs:
+        ok = len(ifs) == 1 and unparse(ifs[0].body[0]) == "direction = 'o'" and unparse(ifs[0].orelse[0]) == "direction = phys.dir"
+    elif exps:
+        e = exps[0].value
+        ok = len(exps) == 1 and ((unparse(e.test) == "phys.dir == 'oe'" and unparse(e.body) == "'o'" and unparse(e.orelse) == "phys.dir") or
+                                 (unparse(e.test) == "phys.dir != 'oe'" and unparse(e.orelse) == "'o'" and unparse(e.body) == "phys.dir"))
+    else:
+        raise AnalysisError("resolve: the mapping of the declared direction ('oe' -> 'o') was not found")
     ctx.check(ok, R, "resolve:direction-map", "'oe' -> 'o', others unchanged", "direction must be phys.dir with 'oe' mapped to 'o'",
               f"{RES}:{fr.lineno}")
     fc = model.func(f"{RES}::ResourceManager.add_connectors")
@@ -248,12 +272,41 @@ def r19c(model, ctx):
         "self._conn_pins[conn_pin] = plat_pin" in unparse(fc)
     ctx.check(ok, R, "add_connectors", "connector pins recorded as conn_pin -> plat_pin", "connector pins must be recorded "
               "conn_pin -> plat_pin", f"{RES}:{fc.lineno}")
-    fp = model.func(f"{PLAT}::Platform.iter_port_constraints_bits")
-    t = unparse(fp)
-    ok = "for (name, port, _dir) in self._design.ports" in t.replace("for name, port, _dir in", "for (name, port, _dir) in") and \
-        "yield (name, port.metadata[0].name, port.metadata[0].attrs)" in t.replace("yield name, port.metadata[0].name, port.metadata[0].attrs", "yield (name, port.metadata[0].name, port.metadata[0].attrs)") and \
-        "for (bit, meta) in enumerate(port.metadata)" in t.replace("for bit, meta in", "for (bit, meta) in") and \
-        "f'{name}[{bit}]'" in t and "meta.name" in t
+    # every yielded constraint pairs a port bit with the metadata entry of the same index: (name | name[bit], M.name, M.attrs)
+    # with M = port.metadata[0] for one-bit ports or the element enumerate(port.metadata) gives for `bit`
+    from ..engine.astutil import parent_map, dominating_conditions
+    fp = model.func_view(f"{PLAT}::Platform.iter_port_constraints_bits")
+    pmx = parent_map(fp)
+    ys = [y for y in ast.walk(fp) if isinstance(y, ast.Yield)]
+    need(ys, "iter_port_constraints_bits: no yield found")
+    ok = any(isinstance(lp, ast.For) and unparse(lp.iter) == "self._design.ports" for lp in ast.walk(fp))
+    for y in ys:
+        v = y.value
+        if not (isinstance(v, ast.Tuple) and len(v.elts) == 3):
+            ok = False
+            continue
+        N, P, A = v.elts
+        M = unparse(P)[:-len(".name")] if unparse(P).endswith(".name") else None
+        good = M is not None and unparse(A) == f"{M}.attrs"
+        conds = dominating_conditions(pmx, pmx.get(y), fp) if good else []
+        ctext = {(unparse(t), pol) for t, pol in conds}
+        if good and M == "port.metadata[0]":
+            good = unparse(N) == "name" and ("len(port) == 1", True) in ctext and ("port.metadata[0] is None", False) in ctext
+        elif good:
+            loop = pmx.get(y)
+            while loop is not None and not (isinstance(loop, ast.For) and unparse(loop.iter) == "enumerate(port.metadata)"):
+                loop = pmx.get(loop)
+            good = loop is not None and isinstance(loop.target, ast.Tuple) and len(loop.target.elts) == 2 and unparse(loop.target.elts[1]) == M
+            if good:
+                bit = unparse(loop.target.elts[0])
+                idx = "f'{name}[{" + bit + "}]'"
+                nt = unparse(N)
+                multi = nt == idx and (("len(port) == 1", False) in ctext)
+                both = isinstance(N, ast.IfExp) and unparse(N.test) == "len(port) == 1" and unparse(N.body) == "name" and unparse(N.orelse) == idx
+                both = both or (isinstance(N, ast.IfExp) and unparse(N.test) in ("len(port) != 1", "len(port) > 1") and
+                                unparse(N.orelse) == "name" and unparse(N.body) == idx)
+                good = (multi or both) and (f"{M} is None", False) in ctext
+        ok = ok and good
     ctx.check(ok, R, "iter_port_constraints_bits", "bit i of a port is paired with metadata[i] (its own pin)",
               "iter_port_constraints_bits must pair bit i of every design port with metadata[i].name (and the 1-bit port with "
               "metadata[0])", f"{PLAT}:{fp.lineno}")
@@ -380,7 +433,7 @@ def r19d(model, ctx):
     ok = "frequency = period.hertz" in unparse(f) and "clocks[clock] = frequency" in unparse(f)
     ctx.check(ok, R, "add_clock_constraint:hertz", "constraints are stored in Hz", "clock constraints must be stored as period.hertz",
               f"{RES}:{f.lineno}")
-    fr = model.func(f"{RES}::ResourceManager.request.resolve")
+    fr = model.func_expanded(f"{RES}::ResourceManager.request.resolve", depth=3, exclude=("add_clock_constraint", "merge_options", "resolve"))
     ok = unparse(fr).count("self.add_clock_constraint(iop, resource.clock.period)") == 1 and \
         unparse(fr).count("self.add_clock_constraint(p, resource.clock.period)") == 1
     ctx.check(ok, R, "resolve:clock", "a declared clock constrains the requested port with its period",
